@@ -246,7 +246,12 @@ def distribute_prefix(S, cfg):
     o.t_in = S.pos('t_in', 600.0, 650.0)
     rise = S.pos('target_rise', 100.0, 200.0)
     o.orifice_input['bulk_coolant_temp'] = o.t_in + rise
-    o.coolant = object()
+    class _Coolant:
+        # the shared coolant object in whatever state earlier calls left it: its current heat capacity is NOT the one
+        # the energy balance over (t_in, target) needs - only Q_equals_mCdT evaluates that
+        heat_capacity = S.pos('cp_as_left_behind', 1200.0, 1300.0)
+        temperature = S.pos('T_as_left_behind', 300.0, 900.0)
+    o.coolant = _Coolant()
     o.group_data = np.zeros((n, 3))
     o.group_data[:, 2] = [0, 0, 1, 1]
     o._power = np.array([[i, S.pos(f'P{i}', 1e5, 5e5)] for i in range(n)], dtype=object if S.mode == 'sym' else float)
@@ -255,8 +260,8 @@ def distribute_prefix(S, cfg):
     rec = {}
 
     def q_equals(power, t_in, coolant, t_out=None, mfr=None):
-        rec.update(power=power, t_in=t_in, t_out=t_out)
-        return S.pos('m_first_pass', 50.0, 500.0)
+        rec.update(power=power, t_in=t_in, t_out=t_out, m=S.pos('m_first_pass', 50.0, 500.0))
+        return rec['m']
     cut = loopcut.Cut(orificing.Orificing.distribute, 0, kind='While')
     if later:
         flows = S.vec('m_prev', n, 'pos', 10.0, 50.0)
@@ -306,10 +311,14 @@ def distribute_prefix(S, cfg):
         S.eq('prefix.total_rescaled_by_temperature_rises', m_total * rise, sum(flows) * (t_out_prev - o.t_in))
         S.holds('prefix.no_first_pass_estimate', not rec)
     else:
+        # the energy balance over (t_in, target) is the one Q_equals_mCdT evaluates (heat capacity at the mean
+        # temperature); the total is its result, not a value built from the coolant's left-over state
         S.holds('prefix.first_pass_uses_power_and_target', bool(rec))
-        S.eq('prefix.first_pass_power', rec['power'], sum(o._power[i, 1] for i in range(n)))
-        S.eq('prefix.first_pass_inlet', rec['t_in'], o.t_in)
-        S.eq('prefix.first_pass_target', rec['t_out'], o.orifice_input['bulk_coolant_temp'])
+        if rec:
+            S.eq('prefix.first_pass_power', rec['power'], sum(o._power[i, 1] for i in range(n)))
+            S.eq('prefix.first_pass_inlet', rec['t_in'], o.t_in)
+            S.eq('prefix.first_pass_target', rec['t_out'], o.orifice_input['bulk_coolant_temp'])
+            S.eq('prefix.first_pass_total_is_the_energy_balance', m_total, rec['m'])
     # the loop starts from equal flows that sum to the total
     S.eq('prefix.initial_flows_sum_to_total', sum(loc['m']), m_total)
     if not cfg.get('dp'):
